@@ -399,8 +399,7 @@ ARun(s, calls, pendingObs) ==
           n == [s EXCEPT !.i = s.i + 1]
           bad(what) == [s EXCEPT !.ok = ChkT(<<"async call order: at", s.pc, "expected", what, "observed", c.c>>, FALSE)]
           \* C06: once the frame is on air its counter is consumed, also when the procedure aborts
-          abortM == IF s.sent /\ ~s.isJoin /\ Joined(s.m) /\ s.m.sess.up = s.m0.sess.up
-                    THEN AfterRx2Complete(s.m) ELSE s.m
+          abortM == IF s.sent /\ ~s.isJoin THEN AfterAbort(s.m, s.m0.sess.up) ELSE s.m
           radioErr == AResp([n EXCEPT !.m = abortM], "ErrRadio")
           dur(w) == (IF w = 1 THEN Delay1(s.m0, s.isJoin) ELSE Delay2(s.m0, s.isJoin)) + s.ms - s.lead
           \* a received frame in a Class A window
